@@ -112,11 +112,13 @@ Theorem C20_bytes_to_key_markers : forall tail,
   bytes_to_key (paste_start_seq ++ tail) false = BKey keyPasteStart tail /\
   bytes_to_key (paste_end_seq ++ tail) true = BKey keyPasteEnd tail.
 Proof. intro tail. split; [exact (bytes_to_key_paste_start tail) | exact (bytes_to_key_paste_end tail)]. Qed.
+Print Assumptions C20_bytes_to_key_markers.
 
 Theorem C20_partial_marker_waits : forall n, (0 < n < 6)%nat ->
   bytes_to_key (firstn n paste_start_seq) false = BNone (firstn n paste_start_seq) /\
   bytes_to_key (firstn n paste_end_seq) true = BNone (firstn n paste_end_seq).
 Proof. exact bytes_to_key_partial_marker. Qed.
+Print Assumptions C20_partial_marker_waits.
 
 (* ---- non-vacuity ---- *)
 From Coq Require Import String Ascii.
